@@ -697,6 +697,7 @@ func (e *Env) call(x *ECall) Val {
 type conjunct struct {
 	Text string
 	Term string
+	Alts []conjunct // pieces of a universally quantified conjunction: tried when the whole formula is not discharged
 }
 
 // conjuncts splits a formula at top-level conjunctions, looking through predicate applications,
@@ -711,12 +712,12 @@ func (e *Env) conjuncts(ex Expr, depth int) []conjunct {
 		if x.Forall {
 			parts := e.splitUnderForall(x.Body, 0)
 			if len(parts) > 1 {
-				var out []conjunct
+				whole := conjunct{Text: fmtExpr(ex), Term: e.evalBool(ex)}
 				for _, p := range parts {
 					q := &EQuant{true, x.Vars, p}
-					out = append(out, conjunct{fmtExpr(q), e.evalBool(q)})
+					whole.Alts = append(whole.Alts, conjunct{Text: fmtExpr(q), Term: e.evalBool(q)})
 				}
-				return out
+				return []conjunct{whole}
 			}
 		}
 	case *ECall:
@@ -728,13 +729,13 @@ func (e *Env) conjuncts(ex Expr, depth int) []conjunct {
 				}
 				var out []conjunct
 				for _, c := range ch.conjuncts(p.Body, depth+1) {
-					out = append(out, conjunct{fmtExpr(x) + " / " + c.Text, c.Term})
+					out = append(out, conjunct{fmtExpr(x) + " / " + c.Text, c.Term, c.Alts})
 				}
 				return out
 			}
 		}
 	}
-	return []conjunct{{fmtExpr(ex), e.evalBool(ex)}}
+	return []conjunct{{Text: fmtExpr(ex), Term: e.evalBool(ex)}}
 }
 
 func fmtExpr(ex Expr) string {
